@@ -51,6 +51,12 @@ CHECKS.update({
                 note=TRUST + "; the bit layout is deliberately not specified"),
 })
 
+CHECKS.update({
+    "C15": dict(level=MC, design="3 C15", technique="TT.tla (concurrent bounded-map model with locks, two-step insert, non-snapshot entries()) model-checked over all interleavings; TLC-simulated behaviours executed on the real table; in-lock hook events linearised by version counter and validated by TTTrace.tla (subset construction over displacement victims)",
+                text="All interleavings of 2-3 threads x 3 operations on a small table are explored for Faithful/CountOk/Bounded/Routing/Fresh/Retained, with a broken-lookup configuration as vacuity guard; specification behaviours (3 threads x 60 ops, 11 keys sharing one 8-slot bucket) run single- and multi-threaded on the real table, and 2..32 real threads hammer real tables; every recorded find/insert/entries is explained by the model or reported.",
+                note=TRUST + "; hook events are emitted inside insert/find/entries while the sub-table lock is held"),
+})
+
 NOT_YET = {
 }
 
